@@ -74,28 +74,83 @@ class Run:
         self.inconclusive = []
 
     # -- running Rust harness binaries that follow the verifkit result protocol ---------------
-    def run_harness(self, binary, args=None, timeout=3600, env=None, label=None):
-        os.makedirs(WORK, exist_ok=True)
-        out = os.path.join(WORK, f"result-{self.prop}-{label or os.path.basename(binary)}-{os.getpid()}.json")
-        if os.path.exists(out):
-            os.remove(out)
+    def _harness_cmd(self, binary, out, args, replay=None, journal=None):
         cmd = [binary, self.prop, "--tier", self.tier, "--seed", str(self.seed), "--out", out]
         keys = sorted(self.known["known"].keys())
         if keys:
             cmd += ["--known", ",".join(keys)]
-        if self.replay:
-            cmd += ["--replay", os.path.abspath(self.replay)]
+        if replay:
+            cmd += ["--replay", os.path.abspath(replay)]
+        if journal:
+            cmd += ["--journal", journal]
         if args:
             cmd += args
+        return cmd
+
+    def run_harness(self, binary, args=None, timeout=3600, env=None, label=None):
+        os.makedirs(WORK, exist_ok=True)
+        label = label or os.path.basename(binary)
+        out = os.path.join(WORK, f"result-{self.prop}-{label}-{os.getpid()}.json")
+        if os.path.exists(out):
+            os.remove(out)
         e = dict(ENV)
         if env:
             e.update(env)
-        r = sh(cmd, timeout=timeout, env=e)
+        r = sh(self._harness_cmd(binary, out, args, replay=self.replay), timeout=timeout, env=e)
         if not os.path.exists(out):
-            raise Infra(f"{os.path.basename(binary)} produced no result (exit {r.returncode}):\n{(r.stdout or '')[-3000:]}")
+            if r.returncode < 0 or r.returncode in (101, 134):
+                return self._crashed(binary, args, e, timeout, label, r)
+            raise Infra(f"{label} produced no result (exit {r.returncode}):\n{(r.stdout or '')[-3000:]}")
         res = json.load(open(out))
         os.remove(out)
-        res["_label"] = label or os.path.basename(binary)
+        res["_label"] = label
+        self.results.append(res)
+        return res
+
+    def _crashed(self, binary, args, e, timeout, label, r):
+        """The harness process died (signal / abort): find the case with a journalled re-run,
+        confirm it by replay, minimise it by delta debugging on its list-valued fields."""
+        sig = f"exit{r.returncode}" if r.returncode >= 0 else f"signal{-r.returncode}"
+        out = os.path.join(WORK, f"result-{self.prop}-{label}-{os.getpid()}-j.json")
+        if self.replay:
+            body = json.load(open(self.replay))
+            res = {"_label": label, "evaluations": 1, "distinct_nontrivial": 0, "violations": [
+                {"sub": body.get("sub", ""), "key": f"crash", "what": f"harness process died ({sig}) while executing the replay case", "case": body.get("case")}]}
+            self.results.append(res)
+            return res
+        journal = os.path.join(WORK, f"journal-{self.prop}-{label}-{os.getpid()}.json")
+        r2 = sh(self._harness_cmd(binary, out, args, journal=journal), timeout=timeout, env=e)
+        if os.path.exists(out) or not os.path.exists(journal):
+            raise Infra(f"{label} died ({sig}) but the crash did not reproduce under the journal re-run")
+        try:
+            body = json.load(open(journal))
+        except Exception:
+            raise Infra(f"{label} died ({sig}); journal unreadable")
+        os.remove(journal)
+
+        def crashes(case):
+            tmp = os.path.join(WORK, f"ddmin-{self.prop}-{os.getpid()}.json")
+            json.dump({"property": self.prop, "sub": body["sub"], "case": case}, open(tmp, "w"))
+            o = tmp + ".out"
+            if os.path.exists(o):
+                os.remove(o)
+            try:
+                rr = sh(self._harness_cmd(binary, o, args, replay=tmp), timeout=120, env=e)
+            except Infra:
+                return False
+            died = not os.path.exists(o)
+            if not died:
+                os.remove(o)
+            return died and (rr.returncode < 0 or rr.returncode in (101, 134))
+
+        case = body["case"]
+        if crashes(case):
+            case = ddmin_json(case, crashes, budget=150)
+            confirmed = "confirmed by replay, minimised by delta debugging"
+        else:
+            confirmed = "died twice in full runs; the journalled case alone did not reproduce it"
+        res = {"_label": label, "evaluations": 0, "distinct_nontrivial": 0, "violations": [
+            {"sub": body["sub"], "key": "crash", "what": f"harness process died ({sig}) inside this case ({confirmed}); output tail: {(r.stdout or '')[-300:]}", "case": case}]}
         self.results.append(res)
         return res
 
@@ -191,6 +246,69 @@ class Run:
         if rc == 0:
             print(f"OK property={prop} tier={self.tier} seed={self.seed} evaluations={evaluations} distinct_nontrivial={distinct} wall={wall:.1f}s")
         return rc
+
+
+def _list_paths(v, path=()):
+    """paths of all lists inside a JSON value"""
+    out = []
+    if isinstance(v, list):
+        out.append(path)
+        for i, x in enumerate(v):
+            out += _list_paths(x, path + (i,))
+    elif isinstance(v, dict):
+        for k, x in v.items():
+            out += _list_paths(x, path + (k,))
+    return out
+
+
+def _get(v, path):
+    for k in path:
+        v = v[k]
+    return v
+
+
+def _set(v, path, new):
+    import copy
+    v = copy.deepcopy(v)
+    if not path:
+        return new
+    cur = v
+    for k in path[:-1]:
+        cur = cur[k]
+    cur[path[-1]] = new
+    return v
+
+
+def ddmin_json(case, still_fails, budget=150):
+    """Greedy delta debugging: repeatedly try to delete chunks of any list in the case."""
+    used = 0
+    progress = True
+    while progress and used < budget:
+        progress = False
+        for path in sorted(_list_paths(case), key=lambda p: -len(_get(case, p))):
+            try:
+                lst = _get(case, path)
+            except (KeyError, IndexError, TypeError):
+                continue
+            if not isinstance(lst, list) or not lst:
+                continue
+            chunk = max(1, len(lst) // 2)
+            while chunk >= 1 and used < budget:
+                i = 0
+                removed = False
+                while i < len(lst) and used < budget:
+                    cand = lst[:i] + lst[i + chunk:]
+                    trial = _set(case, path, cand)
+                    used += 1
+                    if still_fails(trial):
+                        case, lst, removed, progress = trial, cand, True, True
+                    else:
+                        i += chunk
+                if not removed:
+                    chunk //= 2
+                elif chunk > len(lst):
+                    chunk = max(1, len(lst) // 2)
+    return case
 
 
 def saved_replays(prop):
